@@ -245,6 +245,11 @@ func ipEffect(t *rapid.T, targets []ipTarget) expr.Effect {
 	} else {
 		v = expr.NewLess(expr.NewRegLoad(drawSReg(t, "c1"), 8), expr.NewRegLoad(drawSReg(t, "c2"), 8), mk(targets[0]), mk(targets[1]), 8)
 	}
+	// the instruction pointer is written 8 bytes wide, sometimes 4 (all generated
+	// addresses are below 2^32)
+	if uniformInt(t, 5, "ipw4") == 0 {
+		return expr.NewRegStore(v, expr.IPKey, 4)
+	}
 	return expr.NewRegStore(v, expr.IPKey, 8)
 }
 
